@@ -48,6 +48,8 @@ func main() {
 		fmt.Println("panic:", r.Panic)
 	}
 	fmt.Println("flows:", r.IDPairs())
+	off := l.Analyze(taintrun.Options{})
+	fmt.Println("without escape analysis: flows:", off.IDPairs(), "err:", off.Err)
 	fmt.Println("escapes:", r.Escapes)
 	if len(os.Args) > 2 {
 		fmt.Println(r.Log)
